@@ -21,7 +21,7 @@ func cat(lists ...[]string) []string {
 
 var lockAssume = []string{
 	"schedules are not enumerated: by the lock-invariant rule, if every critical section is sequentially correct and every access to the log happens in a section holding the exclusive lock in the epoch of its read (both proved here as obligations on the real code), every interleaving is equivalent to a serial order of sections; that the kernel grants LOCK_EX to at most one open file description at a time and that LOCK_NB fails fast are trusted (flock(2))",
-	"contracts of readEvents, appendEvents, getEventsPath, ergoDir, writeJSON are assumed (trusted) until the storage layer is under contract; I/O faults of append and of stdout are excluded",
+	"contracts of readEvents (bounded stand-in in C03/C12/C13), ergoDir and writeJSON are assumed; appendEvents and replaceEventsAtomically are verified on their bodies for the write protocol (C03/C04) while their clauses [ok]/[fail] tying the ghost log version to a completed write stay assumed; getEventsPath is verified (C18); I/O faults of stdout are excluded",
 }
 
 var lockFuncs = []string{"ensureFileExists", "withLock"}
